@@ -206,7 +206,10 @@ class Make:
 
     @staticmethod
     def cmdsig(g, e):
-        return e['variant'] + ("|" + rsp_content(g, e) if e.get('rsp') is not None else "")
+        # what the command line is made of: the variant and $in/$out (a statement that is removed and added again under
+        # the same output name may come back with other inputs), plus the rspfile content
+        return (e['variant'] + "|in=" + " ".join(e['exp']) + "|out=" + " ".join(e['outs'])
+                + ("|" + rsp_content(g, e) if e.get('rsp') is not None else ""))
 
     def discovered(self, g, e, files):
         """(valid, [paths]) discovered inputs ninja has on record for e; valid False => deps info missing => must run"""
